@@ -69,7 +69,8 @@ class ClohessyWiltshire(AnalyticalPropagator):
     def n(self):
         """Mean motion of the target spacecraft"""
         if not hasattr(self, "_n"):
-            self._n = np.sqrt(self.frame.center.body.µ / self.sma ** 3)
+            # float(): the cube of a radius given as a numpy integer overflows int64
+            self._n = np.sqrt(self.frame.center.body.µ / float(self.sma) ** 3)
         return self._n
 
     @property
